@@ -135,8 +135,8 @@ def scaleVec (on : Bool) (sc : Array R) (v : Vec K) : Vec K :=
 def solveWith (s : DriverState K R) (t : Trans) (b : Vec K) : Vec K :=
   match t with
   | .NOTRANS => scaleVec s.equed.col s.Cs (gstrsN s.fac.piv s.fac.L s.fac.U s.permC (scaleVec s.equed.row s.Rs b))
-  | .TRANS => scaleVec s.equed.row s.Rs (gstrsT false s.n s.fac.piv s.fac.L s.fac.U s.permC (scaleVec s.equed.col s.Cs b))
-  | .CONJ => scaleVec s.equed.row s.Rs (gstrsT true s.n s.fac.piv s.fac.L s.fac.U s.permC (scaleVec s.equed.col s.Cs b))
+  | .TRANS => scaleVec s.equed.row s.Rs (gstrsT id s.fac.piv s.fac.L s.fac.U s.permC (scaleVec s.equed.col s.Cs b))
+  | .CONJ => scaleVec s.equed.row s.Rs (gstrsT HasConj.conj s.fac.piv s.fac.L s.fac.U s.permC (scaleVec s.equed.col s.Cs b))
 
 /-- one call of the expert driver -/
 def stepCall (s : DriverState K R) (c : Call K R) : DriverState K R × Out K :=
